@@ -321,6 +321,9 @@ func init() {
 	intrinsics[zz+"LocksHeld"] = func(e *Engine, st *State, a []Value, in ssa.Instruction) Value {
 		return BVu(uint64(len(st.held)), 64)
 	}
+	intrinsics[zz+"Opaque64"] = func(e *Engine, st *State, a []Value, in ssa.Instruction) Value {
+		return UF("opaque_"+a[0].(string), 64, a[1].(*Term))
+	}
 	intrinsics[zz+"Note"] = func(e *Engine, st *State, a []Value, in ssa.Instruction) Value {
 		if e.traceOn {
 			st.trace = append(st.trace, a[0].(string))
